@@ -13,9 +13,10 @@ if [[ "$SRC" == revert:* ]]; then
 else
     (cd "$S/repo" && patch -p1 -s < "$SRC") || { echo "$NAME: patch does not apply"; exit 2; }
 fi
-rsync -a --exclude target --exclude fuzz /verif/harness/ "$S/harness/"
+VROOT="${VROOT:-$(cd "$(dirname "$0")/.." && pwd)}"
+rsync -a --exclude target --exclude fuzz "$VROOT/harness/" "$S/harness/"
 sed -i "s|path = \"/repo\"|path = \"$S/repo\"|" "$S/harness/Cargo.toml"
-cp /verif/known_findings.json "$S/verif/"; cp -r /verif/replays "$S/verif/replays"; rm -rf "$S/verif/replays/found"; [ -n "${NOREPLAY:-}" ] && rm -rf "$S/verif/replays"
+cp "$VROOT/known_findings.json" "$S/verif/"; cp -r "$VROOT/replays" "$S/verif/replays"; rm -rf "$S/verif/replays/found"; [ -n "${NOREPLAY:-}" ] && rm -rf "$S/verif/replays"
 export CARGO_NET_OFFLINE=true
 if [ -z "${NOTEST:-}" ]; then
     if (cd "$S/repo" && CARGO_TARGET_DIR=$ROOT/repotarget cargo test --workspace --offline >"$S/test.log" 2>&1); then
